@@ -55,6 +55,7 @@ type Config struct {
 	Sync                                                      bool // C05: run a synchronous phase after the async prefix
 	AsyncSteps                                                int
 	TwinGap, TwinHorizon                                      int
+	SlowPP                                                    int  // proposal payloads (large messages) become deliverable only this many scheduler steps after they were sent (0 = off)
 	Hunt                                                      bool // C01: fork-hunting delivery policy after a danger state (see hunt.go)
 	Ghost                                                     bool // C06 tally mode: two real nodes, all other stake held by simulator-crafted voters
 }
@@ -93,6 +94,7 @@ type flight struct {
 	at   time.Duration // sync phase: delivery time (global)
 	craft bool
 	// decoded header (votes and bundles), used by the fork-hunting scheduler policy
+	notBefore int // scheduler step before which this flight cannot be delivered (slow large messages)
 	hasHdr bool
 	vr     basics.Round
 	vp, vs uint64
@@ -206,6 +208,9 @@ func drawConfig(tp *kernel.Tape, prop, tier string) Config {
 		maxNodes = 6
 	}
 	c.Nodes = tp.Range("cfg.nodes", 3, maxNodes)
+	if prop == "C01" && tp.Chance("cfg.manynodes", 1, 2) {
+		c.Nodes = tp.Range("cfg.nodes5", 5, 6) // two disjoint quorum-capable sides need many small nodes
+	}
 	c.Rounds = tp.Range("cfg.rounds", 2, 3)
 	if thorough {
 		c.Rounds = tp.Range("cfg.rounds2", 2, 5)
@@ -310,6 +315,9 @@ func drawConfig(tp *kernel.Tape, prop, tier string) Config {
 	}
 	if prop == "C01" {
 		c.Hunt = tp.Chance("cfg.hunt", 1, 2)
+	}
+	if !c.Ghost && prop != "C05" && (tp.Chance("cfg.slowpp", 1, 3) || c.Hunt) {
+		c.SlowPP = tp.Range("cfg.slowpp.steps", 50, 1200)
 	}
 	if prop == "C07" {
 		c.SlowFlush = false // a twin must be forked when the crash DB equals the in-memory state; delayed persistence breaks that premise
@@ -585,6 +593,10 @@ func (s *Sim) fanout(n *Node, m outMsg, key string, dec any) {
 		s.nextID++
 		f := &flight{id: s.nextID, from: n.id, to: d.id, tag: m.tag, data: m.data, key: key}
 		setHdr(f, dec)
+		if s.cfg.SlowPP > 0 && m.tag == protocol.ProposalPayloadTag && !s.syncMode {
+			f.notBefore = s.step + s.cfg.SlowPP
+			s.stat("slow_payload", 1)
+		}
 		if s.syncMode {
 			f.at = s.global + s.drawDelay()
 		}
@@ -656,7 +668,7 @@ func (s *Sim) deliverable() []int {
 	var idx []int
 	for i, f := range s.inflight {
 		d := s.nodes[f.to]
-		if d.alive && d.starve == 0 && s.linkOK(f.from, f.to) {
+		if d.alive && d.starve == 0 && s.linkOK(f.from, f.to) && f.notBefore <= s.step {
 			idx = append(idx, i)
 			if len(idx) >= 64 {
 				break
